@@ -17,8 +17,8 @@ TIERS = {
     # swarm definitions, capacities per definition, histories per profile, miri histories
     # optimised builds are expensive per definition, unoptimised ones cheap: the dev arm sweeps many more
     # definitions (one capacity each), the release / hooks / Miri arms the corpus plus a smaller swarm
-    "quick": dict(swarm=12, caps=2, swarm_dev=150, caps_dev=1, runs=40000, miri=96, miri_defs=8),
-    "thorough": dict(swarm=85, caps=2, swarm_dev=400, caps_dev=1, runs=2000000, miri=1200, miri_defs=24),
+    "quick": dict(swarm=12, caps=2, swarm_dev=150, caps_dev=1, runs=40000, miri=64, miri_defs=8, miri_tour_defs=4),
+    "thorough": dict(swarm=85, caps=2, swarm_dev=400, caps_dev=1, runs=2000000, miri=1200, miri_defs=24, miri_tour_defs=32),
 }
 
 LEVEL = {"C04": "exploration", "C05": "exploration", "C06": "exploration", "C07": "exploration", "C15": "fault_enumeration", "C16": "fault_enumeration"}
@@ -200,6 +200,13 @@ def miri_arm(prop, seed, tier, notes):
                                   "--start", str(10 ** 9 + w * per), "--count", str(per), "--focus", prop, "--faults", faults,
                                   "--init-skipped", "--max-defs", str(t["miri_defs"]), "--max-ops", "12", "--trace-cases"],
                              cwd=SIM, env=e, tag=("miri", faults), miri_seed=(seed + w) % (2 ** 31)))
+    # directed tours under the interpreter: every generated function of the selected definitions once
+    for w in range(workers):
+        e = dict(env)
+        e["MIRIFLAGS"] = "-Zmiri-ignore-leaks -Zmiri-symbolic-alignment-check -Zmiri-seed=%d" % ((seed + 100 + w) % (2 ** 31))
+        jobs.append(dict(cmd=["cargo", "+nightly", "miri", "run", "--offline", "-q", "-p", "recsim", "--", "tour", "--seed", str(seed), "--faults", "on" if w % 2 else "off",
+                              "--init-skipped", "--max-defs", str(t["miri_tour_defs"]), "--part", str(w // 2), "--parts", str(max(1, workers // 2)), "--trace-cases"],
+                         cwd=SIM, env=e, tag=("miri", "on" if w % 2 else "off"), miri_seed=(seed + 100 + w) % (2 ** 31)))
     results = fan_out(jobs, timeout=6 * 3600)
     merged = Merged()
     ub = []
@@ -268,8 +275,13 @@ def classify_miri(kind):
         return ["C07"]
     if "out-of-bounds" in k or "dangling" in k or "freed" in k or "dereferenc" in k or "use-after-free" in k or "has been freed" in k:
         return ["C07", "C06"]
-    if "borrow" in k or "tag" in k or "protect" in k or "permission" in k:
+    if "borrow" in k or "tag" in k or "protect" in k or "permission" in k or "provenance" in k:
         return ["C04", "C07"]
+    if "pointer arithmetic" in k or "incorrect layout" in k:
+        return ["C07"]
+    if "constructing invalid value" in k or "invalid value" in k:
+        # the record buffer itself typed as something that must be initialised / carries no provenance
+        return ["C07", "C04"]
     if "uninitialized" in k:
         return []  # reading a never-written may-be-uninit field is outside C07's wording
     return []
@@ -311,6 +323,11 @@ def check(prop, tier, seed):
                     os.unlink(prog)
                 jobs.append(dict(cmd=[bins[profile], "batch", "--seed", str(seed), "--start", str(start), "--count", str(n), "--focus", prop, "--faults", faults, "--progress", prog],
                                  progress=prog, tag=(profile, faults)))
+    # directed tours: every generated function of every definition once per arm and fault setting
+    for profile in profiles:
+        for faults in ("off", "on"):
+            prog = os.path.join(WORK, "recsim-%s-%s-%s-tour.progress" % (prop, profile, faults))
+            jobs.append(dict(cmd=[bins[profile], "tour", "--seed", str(seed), "--faults", faults, "--progress", prog], progress=prog, tag=(profile, faults), tour=True))
     results = fan_out(jobs, timeout=4 * 3600)
     total = Merged()
     per_arm = {}
@@ -328,6 +345,12 @@ def check(prop, tier, seed):
                     raise HarnessError("recsim usage error: " + r["stderr"][-500:])
                 idx = r["progress_case"]
                 pc = None
+                if j.get("tour"):
+                    # a tour has no seed-indexed stream: run it again with the cases traced, take the last one
+                    p2 = subprocess.run(j["cmd"] + ["--trace-cases"], stdout=subprocess.PIPE, stderr=subprocess.PIPE, text=True, errors="replace")
+                    last = [l[5:] for l in p2.stderr.splitlines() if l.startswith("CASE ")]
+                    crashes.append(dict(arm=profile, case=json.loads(last[-1]) if last else None, run=None, rc=r["rc"], stderr=r["stderr"][-300:]))
+                    continue
                 if idx is not None and idx >= 0:
                     out = run([bins[profile], "gen", "--seed", str(seed), "--run", str(idx), "--focus", prop, "--faults", faults]).stdout
                     pc = dict(run=idx, case=json.loads(out.strip().splitlines()[-1]))
